@@ -18,7 +18,7 @@ From GocqlV Require Import Lib.Base Gen.Consts.
 Record host := mkHost { h_id : Z; h_info : bool (* Info() != nil *); h_up : bool; h_pool : bool (* getPool ok *);
                         h_conn : bool (* pool.Pick() != nil *) }.
 
-(* query_executor.go:136-152: three `selectedHost = hostIter(); continue` exits *)
+(* query_executor.go:135-152: three `selectedHost = hostIter(); continue` exits *)
 Definition usable (h : host) : bool :=
   if negb (h_info h) || negb (h_up h) then false
   else if negb (h_pool h) then false
@@ -44,7 +44,7 @@ Definition outcome := option failure.             (* None = the attempt succeede
 Definition logical (e : err) : bool :=
   match e with ECanceled | EDeadline | ENotFound => true | _ => false end.
 
-(* write types as the harness numbers them: the strings compared in policies.go:243-250 *)
+(* write types as the harness numbers them: the strings compared in policies.go:249-255 *)
 Definition WT_SIMPLE : Z := 0.
 Definition WT_BATCH : Z := 1.
 Definition WT_COUNTER : Z := 2.
@@ -56,15 +56,15 @@ Definition WT_UNLOGGED_BATCH : Z := 3.
    p_rtype d e   : GetRetryType(e) at that consultation, as the raw RetryType value. *)
 Record policy := mkPolicy { p_attempt : nat -> Z -> bool * option Z; p_rtype : nat -> err -> Z }.
 
-(* policies.go:166-172 *)
+(* policies.go:167-173 *)
 Definition simple_policy (n : Z) : policy :=
   mkPolicy (fun _ a => (a <=? n, None)) (fun _ _ => K.RetryNextHost).
 
-(* policies.go:180-186, 208-210 (the sleep is not modelled) *)
+(* policies.go:181-187, 207-209 (the sleep is not modelled) *)
 Definition expo_policy (n : Z) : policy :=
   mkPolicy (fun _ a => (if a >? n then false else true, None)) (fun _ _ => K.RetryNextHost).
 
-(* policies.go:231-257 *)
+(* policies.go:241-264 *)
 Definition downgrading_rtype (e : err) : Z :=
   match e with
   | EUnavailable alive => if alive >? 0 then K.Retry else K.Rethrow
@@ -77,7 +77,7 @@ Definition downgrading_rtype (e : err) : Z :=
   | _ => K.RetryNextHost
   end.
 
-(* policies.go:219-229 *)
+(* policies.go:230-239 *)
 Definition downgrading_policy (levels : list Z) : policy :=
   mkPolicy (fun _ a =>
               if a >? Z.of_nat (length levels) then (false, None)
@@ -214,7 +214,7 @@ Definition exec_mode (idem : bool) (k : Z) : mode :=
   if negb idem || (k =? 0) then MSequential else MSpeculative k.
 
 (* ---- the concurrent system ---------------------------------------------------------------- *)
-Record thread := mkTh { t_run : run; t_exit : option bool (* None: running; Some true: sent its result; Some false: dropped it *) }.
+Record thread := mkTh { t_run : run; t_exit : option bool (* None: running; Some true: delivered its result (sent it / returned it); Some false: dropped it *) }.
 
 Inductive mres := MIter (r : result) | MCtx.        (* what executeQuery returns: an Iter / &Iter{err: ctx.Err()} *)
 Inductive mainpc :=
@@ -304,8 +304,9 @@ Definition step (p : option policy) (s : sstate) (l : label) : option sstate :=
       end
   | LSeqRet =>
       match g_main s, nth_error (g_th s) 0 with
-      | MSeq, Some (mkTh (mkRun (PDone r) _ _) None) =>
-          Some (mkS (g_sh s) (g_th s) (g_chan s) (g_first s) (MRet (MIter r)) (g_k s))
+      | MSeq, Some (mkTh (mkRun (PDone r) tr post) None) =>
+          Some (mkS (g_sh s) (upd (g_th s) 0 (mkTh (mkRun (PDone r) tr post) (Some true))) (g_chan s) (g_first s)
+                    (MRet (MIter r)) (g_k s))
       | _, _ => None
       end
   end.
